@@ -539,42 +539,78 @@ def _nontrivial(sched, obs):
 # --------------------------------------------------------------------------
 # GRPCNetwork.evaluate through a stub that serves from the virtual loop
 # --------------------------------------------------------------------------
-def grpc_roundtrips(run, n_hash, n_xf, transformer):
-    """-> list of dicts {pos tokens, server words, bytes, client words, value bits...}"""
+def grpc_session(which, positions, transformer, lat):
+    """one server + one GRPCNetwork client; evaluate the positions one after the other -> records"""
     import numpy as np
     import torch
-    import tak
     from tak.model import server as srv, grpc as tgrpc, encoding
+    from tak import ptn
     out = []
+    loop = VLoop()
+    asyncio.set_event_loop(loop)
+    log, used, seen, outs = [], [], [], []
+
+    def on_batch(pos, mask):
+        seen.append([pos[i][~mask[i]].tolist() for i in range(pos.shape[0])])
+
+    model = (_make_recording(torch, _make_hash_model(torch, lambda p, m: None), on_batch, outs) if which == "hash"
+             else _make_recording(torch, transformer, on_batch, outs))
+    loop.set_default_executor(VExecutor(loop, [lat], log, used))
+    server = srv.Server(model=model)
+    worker = loop.create_task(server.worker_loop())
+    net = tgrpc.GRPCNetwork("localhost", 5001)
+    carrier = {}
+
+    def Evaluate(request):
+        carrier["request"] = list(request.position)
+        resp = loop.run_until_complete(server.Evaluate(request, None))
+        carrier["resp"] = resp
+        return resp
+
+    net.stub.Evaluate = Evaluate
+    for p in positions:
+        enc = encoding.encode(p)
+        rec = {"model": which, "tps": ptn.format_tps(p), "latency_us": lat, "encoded": list(enc)}
+        try:
+            probs, value = net.evaluate(p)
+        except BaseException as e:  # noqa
+            rec["error"] = repr(e)[:300]
+            out.append(rec)
+            break
+        o = outs[-1]
+        sw = torch.softmax(o["moves"], dim=-1).to(dtype=torch.float32).numpy()[-1]
+        sv = o["values"].to(dtype=torch.float32).numpy()[-1]
+        rec.update({
+            "request_seen_by_stub": carrier["request"],
+            "rows_seen_by_model": seen[-1],
+            "server_words": sw.view(np.uint32).tolist(),
+            "server_value_bits": int(np.array([sv], dtype=np.float32).view(np.uint32)[0]),
+            "bytes": list(carrier["resp"].move_probs_bytes),
+            "client_words": probs.numpy().view(np.uint32).tolist() if probs.dtype == torch.float32 else None,
+            "client_dtype": str(probs.dtype),
+            "client_value_bits": int(np.array([value], dtype=np.float32).view(np.uint32)[0]),
+            "client_value_exact": float(np.float32(value)) == float(value),
+        })
+        out.append(rec)
+    worker.cancel()
+    try:
+        loop.run_until_complete(asyncio.gather(worker, return_exceptions=True))
+    except BaseException:  # noqa
+        pass
+    loop.close()
+    asyncio.set_event_loop(None)
+    return out
+
+
+def grpc_roundtrips(run, n_hash, n_xf, transformer):
+    """GRPCNetwork.evaluate on played positions -> list of records"""
+    import tak
     rng = run.rng
+    out = []
     for which, n in (("hash", n_hash), ("transformer", n_xf)):
-        if not n:
-            continue
-        loop = VLoop()
-        asyncio.set_event_loop(loop)
-        log, used, seen, outs = [], [], [], []
-
-        def on_batch(pos, mask, seen=seen):
-            seen.append([pos[i][~mask[i]].tolist() for i in range(pos.shape[0])])
-
-        model = (_make_recording(torch, _make_hash_model(torch, lambda p, m: None), on_batch, outs) if which == "hash"
-                 else _make_recording(torch, transformer, on_batch, outs))
-        loop.set_default_executor(VExecutor(loop, [rng.choice([0, 300, 2500])], log, used))
-        server = srv.Server(model=model)
-        worker = loop.create_task(server.worker_loop())
-        net = tgrpc.GRPCNetwork("localhost", 5001)
-        carrier = {}
-
-        def Evaluate(request, carrier=carrier, loop=loop, server=server):
-            carrier["request"] = list(request.position)
-            resp = loop.run_until_complete(server.Evaluate(request, None))
-            carrier["resp"] = resp
-            return resp
-
-        net.stub.Evaluate = Evaluate
+        positions = []
         for _ in range(n):
-            size = rng.choice([3, 4, 5, 6])
-            p = tak.Position.from_config(tak.Config(size=size))
+            p = tak.Position.from_config(tak.Config(size=rng.choice([3, 4, 5, 6])))
             for _ in range(rng.randint(0, 12)):
                 ms = list(p.all_moves())
                 rng.shuffle(ms)
@@ -584,31 +620,48 @@ def grpc_roundtrips(run, n_hash, n_xf, transformer):
                         break
                     except tak.IllegalMove:
                         continue
-            enc = encoding.encode(p)
-            probs, value = net.evaluate(p)
-            o = outs[-1]
-            sw = torch.softmax(o["moves"], dim=-1).to(dtype=torch.float32).numpy()[0]
-            sv = o["values"].to(dtype=torch.float32).numpy()[0]
-            rec = {
-                "model": which, "size": size, "encoded": list(enc), "request_seen_by_stub": carrier["request"],
-                "row_seen_by_model": seen[-1][0] if seen and len(seen[-1]) == 1 else seen[-1],
-                "server_words": sw.view(np.uint32).tolist(),
-                "server_value_bits": int(np.array([sv], dtype=np.float32).view(np.uint32)[0]),
-                "bytes": list(carrier["resp"].move_probs_bytes),
-                "client_words": probs.numpy().view(np.uint32).tolist() if probs.dtype == torch.float32 else None,
-                "client_dtype": str(probs.dtype),
-                "client_value_bits": int(np.array([value], dtype=np.float32).view(np.uint32)[0]),
-                "client_value_exact": float(np.float32(value)) == float(value),
-            }
-            out.append(rec)
-        worker.cancel()
-        try:
-            loop.run_until_complete(asyncio.gather(worker, return_exceptions=True))
-        except BaseException:  # noqa
-            pass
-        loop.close()
-        asyncio.set_event_loop(None)
+            positions.append(p)
+        if positions:
+            out += grpc_session(which, positions, transformer, rng.choice([0, 300, 2500]))
     return out
+
+
+def grpc_py_check(r):
+    """the part of the client round trip that needs no arithmetic: right position in, float32 out"""
+    if "error" in r:
+        return ["GRPCNetwork.evaluate raised " + r["error"]]
+    bad = []
+    if r["encoded"] != r["request_seen_by_stub"] or [r["encoded"]] != r["rows_seen_by_model"]:
+        bad.append("the model call was not exactly one row equal to encoding.encode(pos)")
+    if r["client_dtype"] != "torch.float32":
+        bad.append("client tensor is not float32")
+    if not r["client_value_exact"]:
+        bad.append("client value is not a float32")
+    if r["model"] == "hash":
+        w, v = py_ref(r["encoded"])
+        if r["client_words"] != w or r["client_value_bits"] != v:
+            bad.append("client result is not the model's value on the position")
+    return bad
+
+
+def grpc_add_cases(r, small, big, meta):
+    """Coq cases (CTYPE_C) of one record; long replies are compared slice by slice (encode_words is a flat_map)"""
+    if "error" in r:
+        return
+    cw = r["client_words"] if r["client_words"] is not None else []
+    sw, by = r["server_words"], r["bytes"]
+    tail = f"{cz(r['server_value_bits'])}, {cz(r['client_value_bits'])})"
+    if len(sw) <= CHUNK and len(by) <= 8 * CHUNK:
+        small.add(f"({czlist(sw)}, {czlist(by)}, {czlist(cw)}, {tail}", meta)
+    elif len(by) == 4 * len(sw) and len(cw) == len(sw):
+        for k in range(0, len(sw), CHUNK):
+            big.add(f"({czlist(sw[k:k + CHUNK])}, {czlist(by[4 * k:4 * (k + CHUNK)])}, {czlist(cw[k:k + CHUNK])}, {tail}", meta)
+    else:   # the lengths do not even match: the head is enough to show it
+        big.add(f"({czlist(sw[:CHUNK])}, {czlist(by[:4 * CHUNK + 4])}, {czlist(cw[:CHUNK + 1])}, {tail}", meta)
+
+
+def _short(r):
+    return {k: (v if not isinstance(v, list) or len(v) <= 80 else v[:80] + ["..."]) for k, v in r.items()}
 
 
 # --------------------------------------------------------------------------
@@ -738,50 +791,29 @@ def correspondence(run):
     cscx = core.Cases(ID, "codecx", HEADER, CTYPE_C, CHECK_C, show=SHOW_C, shard=2)
     distinct = set()
     for r in recs:
-        cw = r["client_words"] if r["client_words"] is not None else []
-        meta = {"rec": {k: (v if not isinstance(v, list) or len(v) <= 64 else v[:64] + ['...']) for k, v in r.items()}}
-        sw, by = r["server_words"], r["bytes"]
-        if len(sw) <= CHUNK:
-            csc.add(f"({czlist(sw)}, {czlist(by)}, {czlist(cw)}, {cz(r['server_value_bits'])}, {cz(r['client_value_bits'])})", meta)
-        elif len(by) == 4 * len(sw) and len(cw) == len(sw):
-            # a long reply is compared slice by slice (encode_words is a flat_map, so this is the same statement)
-            for k in range(0, len(sw), CHUNK):
-                cscx.add(f"({czlist(sw[k:k + CHUNK])}, {czlist(by[4 * k:4 * (k + CHUNK)])}, {czlist(cw[k:k + CHUNK])}, "
-                         f"{cz(r['server_value_bits'])}, {cz(r['client_value_bits'])})", meta)
-        else:
-            # lengths do not even match: the head is enough to show it
-            cscx.add(f"({czlist(sw[:CHUNK])}, {czlist(by[:4 * CHUNK + 4])}, {czlist(cw[:CHUNK + 1])}, "
-                     f"{cz(r['server_value_bits'])}, {cz(r['client_value_bits'])})", meta)
-        distinct.add(hashlib.sha256(json.dumps(r["server_words"]).encode()).hexdigest())
-        py_bad = []
-        if r["encoded"] != r["request_seen_by_stub"] or r["encoded"] != r["row_seen_by_model"]:
-            py_bad.append("the position that reached the model is not encoding.encode(pos)")
-        if r["client_dtype"] != "torch.float32":
-            py_bad.append("client tensor is not float32")
-        if not r["client_value_exact"]:
-            py_bad.append("client value is not a float32")
-        if r["model"] == "hash":
-            w, v = py_ref(r["encoded"])
-            if r["client_words"] != w or r["client_value_bits"] != v:
-                py_bad.append("client result is not the model's value on the position")
-        if py_bad and _fresh(run, "grpc-" + hashlib.sha256(json.dumps(r["encoded"]).encode()).hexdigest()[:10], "grpc"):
-            run.violation("grpc-" + hashlib.sha256(json.dumps(r["encoded"]).encode()).hexdigest()[:10],
-                          {"clause": py_bad, "record": {k: (v if not isinstance(v, list) else v[:80]) for k, v in r.items()}})
+        grpc_add_cases(r, csc, cscx, {"rec": r})
+        distinct.add(hashlib.sha256(json.dumps(r.get("server_words")).encode()).hexdigest())
+        py_bad = grpc_py_check(r)
+        key = "grpc-" + hashlib.sha256(json.dumps([r["model"], r["tps"]]).encode()).hexdigest()[:10]
+        if py_bad and _fresh(run, key, "grpc"):
+            run.violation(key, {"clause": py_bad, "record": _short(r)})
     failing_c, shard_fail_c, nshc = csc.run()
     fx, sfx, nx = cscx.run()
     failing_c, shard_fail_c, nshc = failing_c + fx, shard_fail_c + sfx, nshc + nx
     run.oblige(f"correspondence:GRPCNetwork.evaluate codec ({nshc} shards)", not shard_fail_c, str(shard_fail_c)[:1500])
     run.count(len(recs), len(distinct), "GRPCNetwork.evaluate on played positions through a stub that serves from the virtual loop: "
               "bytes = encode_words(server words), client words = decode_bytes(bytes) = server words, value bits equal (in Coq); "
-              "non-trivial = distinct policy vectors",
-              [{"encoded": recs[0]["encoded"], "bytes_head": recs[0]["bytes"][:16], "client_words_head": (recs[0]["client_words"] or [])[:4]}] if recs else [],
+              "the model call is one row equal to encoding.encode(pos) (Python); non-trivial = distinct policy vectors",
+              [{"tps": recs[0]["tps"], "encoded": recs[0]["encoded"], "bytes_head": recs[0].get("bytes", [])[:16],
+                "client_words_head": (recs[0].get("client_words") or [])[:4]}] if recs else [],
               {"hash_model": sum(1 for r in recs if r["model"] == "hash"), "transformer": sum(1 for r in recs if r["model"] != "hash")},
               label="codec")
-    for meta in failing_c[:2]:
+    for meta in failing_c:
         r = meta["rec"]
-        if _fresh(run, "codec-" + hashlib.sha256(json.dumps(r["encoded"]).encode()).hexdigest()[:10], "codec"):
-            run.violation("codec-" + hashlib.sha256(json.dumps(r["encoded"]).encode()).hexdigest()[:10],
-                          {"clause": ["the client does not turn the served reply back into the same policy vector / value"], "record": r})
+        key = "grpc-" + hashlib.sha256(json.dumps([r["model"], r["tps"]]).encode()).hexdigest()[:10]
+        if _fresh(run, key, "grpc"):
+            run.violation(key, {"clause": ["the client does not turn the served reply back into the same policy vector / value "
+                                           "(float32 words -> little-endian bytes -> words)"], "record": _short(r)})
 
 
 def _slim_x(obs):
@@ -817,6 +849,22 @@ def search(run, broken):
 
 def replay(run, rp):
     core.setup_impl(shims=True)
+    if "record" in rp:
+        import tak
+        from tak import ptn
+        r0 = rp["record"]
+        p = ptn.parse_tps(r0["tps"])
+        tf = make_transformer(int(rp.get("seed", run.seed)) % 1000) if r0["model"] != "hash" else None
+        # the same client/server pair serves an empty board, then the recorded position twice (stale replies show up)
+        recs = grpc_session(r0["model"], [tak.Position.from_config(tak.Config(size=p.size)), p, p], tf, r0.get("latency_us", 300))
+        small = core.Cases(ID, "replay", HEADER, CTYPE_C, CHECK_C, show=SHOW_C, shard=4)
+        bad = []
+        for r in recs:
+            bad += grpc_py_check(r)
+            grpc_add_cases(r, small, small, {})
+        failing, shard_fail, _ = small.run() if len(small) else ([], [], 0)
+        return {"violates": bool(bad or failing or shard_fail), "python_checks": bad, "codec_agrees_with_model": not (failing or shard_fail),
+                "records": [_short(r) for r in recs[1:]]}
     if "schedule" not in rp:
         return {"violates": False, "note": "replay file holds no schedule (broken obligation without a failing input)",
                 "broken": rp.get("broken_obligations")}
